@@ -344,8 +344,11 @@ PROPS['C13'] = {
               {'unit': 'peers', 'fns': ['GenericCloud::remove_peer', 'GenericCloud::housekeep_expiry_block', 'lemma_take_contains', 'canary_.*']}],
     'native_search': {r'table::.*': [TABLE_MODEL, ISO_DRV], r'peers::GenericCloud.*': NODE_PEERS_DRV, r'cloud::.*': ISO_DRV, r'kani::cloudblocks::.*': ISO_DRV},
     'kani': {
-        'files': {'src/payload.rs': ['kani/payload.rs'], 'src/cloud.rs': ['kani/cloudblocks.rs.in']},
+        'files': {'src/payload.rs': ['kani/payload.rs'], 'src/cloud.rs': ['kani/cloudblocks.rs.in'], 'src/types.rs': ['kani/types.rs']},
         'harnesses': [
+            # the learning key of a priority-tagged frame IS the key of the untagged one only because Address equality (and hashing) looks at
+            # the first `len` bytes alone (seed C13-6)
+            K('types::__verif_types::', 'address_eq_is_prefix_equality', 'Address::eq == same length and same first len bytes (what lies behind them - e.g. the bytes the VLAN-0 fold of Frame::parse leaves - does not count)', fns=['types::Address::eq']),
             K(PAY, 'frame_parse_len_le_1600', 'Frame::parse: learning key = 12-bit VLAN id || MAC; VLAN 0 and untagged give the bare MAC; all 65536 TCI values; nested tags ignored', fns=['payload::Frame::parse']),
             K(CLB, 'mode_table_matches_documentation', 'GenericCloud::new mode block: learning iff switch or normal/tap; hub and router never learn', fns=['cloud::GenericCloud::new (block: mode table)']),
             K(CLB, 'table_gets_switch_and_peer_timeouts', 'GenericCloud::new: the table is built with (switch_timeout, peer_timeout)', fns=['cloud::GenericCloud::new (block: ClaimTable::new arguments)']),
